@@ -63,11 +63,22 @@ def build_run(rng):
     if style.startswith("legacy"):
         spec = rng.choice(["AD_HDF5_SWMR_STREAM", "AD_TIFF", "SOMETHING_ELSE", "hdf5"])
         rk = {"path": "/entry/data", "frame_per_point": 1} if rng.random() < 0.5 else {"dataset": "/entry/d2", "extra": {"deep": [1, 2]}}
-        res = run.compose_resource(spec=spec, root="/tmp/data", resource_path="a/b.h5", resource_kwargs=rk)
-        docs.append(("resource", res.resource_doc))
+        # the data may continue in further Resources (files): the per-file 'frame' counter then restarts at 0
+        nres = rng.choice([1, 1, 2, 3, 4]) if style == "legacy" else 1
+        nres = max(1, min(nres, n))
+        bounds = sorted(rng.sample(range(1, n), nres - 1)) if nres > 1 else []
+        group_start = [0] + bounds
+        res_docs = {}
+        res = None
         for k in range(n):
-            dk = {"frame": k} if style == "legacy" else {"point_number": k}
+            if k in group_start:
+                res = run.compose_resource(spec=spec, root="/tmp/data", resource_path=f"a/b{len(res_docs)}.h5",
+                                           resource_kwargs=copy.deepcopy(rk))
+                res_docs[k] = res.resource_doc
+                first_of_group = k
+            dk = {"frame": k - first_of_group} if style == "legacy" else {"point_number": k}
             datums.append(res.compose_datum(datum_kwargs=dk))
+        docs.append(("resource", res_docs[0]))
     elif style == "current":
         sres = run.compose_stream_resource(mimetype="application/x-hdf5", uri="file://localhost/tmp/x.h5", data_key="img",
                                            parameters={"dataset": "/entry/data", "chunk_shape": [1, 2, 2]})
@@ -89,11 +100,13 @@ def build_run(rng):
     body = []
     if style.startswith("legacy"):
         if packing == "pages":
-            dpage = [("datum_page", pack_datum_page(*datums))]
+            dpage = [("resource", res_docs[k]) for k in sorted(res_docs) if k] + [("datum_page", pack_datum_page(*datums))]
             epage = [("event_page", pack_event_page(*events))]
             body = dpage + epage if order == "datum-first" else epage + dpage
         else:
             for k in range(n):
+                if k and k in res_docs:
+                    body.append(("resource", res_docs[k]))
                 pair = [("datum", datums[k]), ("event", events[k])]
                 body += pair if order == "datum-first" else pair[::-1]
     else:
@@ -107,7 +120,8 @@ def build_run(rng):
             body = [("event_page", pack_event_page(*events))] if packing == "pages" and events else [("event", e) for e in events]
     docs += body
     docs.append(("stop", run.compose_stop()))
-    return docs, {"style": style, "order": order, "packing": packing, "reserved": reserved, "n": n}
+    return docs, {"style": style, "order": order, "packing": packing, "reserved": reserved, "n": n,
+                  "nres": len(res_docs) if style.startswith("legacy") else 0}
 
 
 def deep_equal(a, b):
